@@ -618,7 +618,7 @@ func (b *brokerCore) handle(ws []string) string {
 		writeFirst(c, bytes)
 		c.waitUntil(func() bool { return len(c.items) > 0 || c.eof }, brokerWait)
 		if pipelinedDisconnect {
-			c.waitUntil(func() bool { return c.eof }, 2*time.Second)
+			c.waitUntil(func() bool { return c.eof }, brokerWait)
 		}
 		c.mu.Lock()
 		if len(c.items) > 0 && strings.HasPrefix(c.items[0], "CONNACK") && strings.HasSuffix(c.items[0], " 0") {
